@@ -1,0 +1,61 @@
+//go:build verif
+
+package tbtc
+
+import (
+	"context"
+
+	"github.com/keep-network/keep-core/pkg/protocol/group"
+	"github.com/keep-network/keep-core/pkg/protocol/inactivity"
+	"github.com/keep-network/keep-core/pkg/tecdsa/dkg"
+)
+
+// Thin exported wrappers used by the /verif harness (property C40). They build
+// the signers and submitters with the production constructors and call the
+// production methods. No behaviour of their own.
+
+// VerifC40SignDkgResult runs dkgResultSigner.SignResult.
+func VerifC40SignDkgResult(
+	chain Chain,
+	dkgStartBlock uint64,
+	result *dkg.Result,
+) (*dkg.SignedResult, error) {
+	return newDkgResultSigner(chain, dkgStartBlock).SignResult(result)
+}
+
+// VerifC40VerifyDkgResultSignature runs dkgResultSigner.VerifySignature.
+func VerifC40VerifyDkgResultSignature(
+	chain Chain,
+	dkgStartBlock uint64,
+	signedResult *dkg.SignedResult,
+) (bool, error) {
+	return newDkgResultSigner(chain, dkgStartBlock).VerifySignature(signedResult)
+}
+
+// VerifC40SubmitDkgResult runs dkgResultSubmitter.SubmitResult.
+func VerifC40SubmitDkgResult(
+	ctx context.Context,
+	chain Chain,
+	groupParameters *GroupParameters,
+	groupSelectionResult *GroupSelectionResult,
+	waitForBlockFn func(context.Context, uint64) error,
+	memberIndex group.MemberIndex,
+	result *dkg.Result,
+	signatures map[group.MemberIndex][]byte,
+) error {
+	return newDkgResultSubmitter(
+		logger,
+		chain,
+		groupParameters,
+		groupSelectionResult,
+		waitForBlockFn,
+	).SubmitResult(ctx, memberIndex, result, signatures)
+}
+
+// VerifC40SignInactivityClaim runs inactivityClaimSigner.SignClaim.
+func VerifC40SignInactivityClaim(
+	chain Chain,
+	claim *inactivity.ClaimPreimage,
+) (*inactivity.SignedClaimHash, error) {
+	return newInactivityClaimSigner(chain).SignClaim(claim)
+}
